@@ -1,7 +1,8 @@
 SPECIFICATION SpecEnum
 CONSTANTS
+  Layouts <- LayoutsPlain
   N = 3
-  Sizes = {2, 32768, 65530, 70000}
+  Sizes = {0, 2, 32768, 65529, 65530, 70000}
   LinkOpts <- LO_enum3
   MaxCopies = 0
 INVARIANT CaseDump
